@@ -5,6 +5,10 @@
 #[macro_use]
 mod util;
 mod ops;
+mod tracked;
+mod iter;
+mod tuples;
+mod own;
 
 fn main() {
     let args: Vec<String> = std::env::args().collect();
@@ -12,6 +16,9 @@ fn main() {
     let rest = &args[3..];
     match (args[1].as_str(), args[2].as_str()) {
         ("replay", "ops") => ops::replay(rest),
+        ("replay", "iter") => iter::replay(rest),
+        ("drive", "ops") => ops::drive(rest),
+        ("drive", "own") => own::drive(rest),
         (a, b) => { eprintln!("unknown command {} {}", a, b); std::process::exit(2); }
     }
 }
